@@ -1,9 +1,10 @@
 #!/bin/sh
 # MANIFEST.setup_cmd: full .vo build of the Coq development, extraction, OCaml driver.  Offline.
 set -e
-python3 /verif/harness/gen_coqproject.py >/dev/null
-cd /verif/coq
+ROOT=$(cd "$(dirname "$0")/.." && pwd)
+python3 "$ROOT/harness/gen_coqproject.py" >/dev/null
+cd "$ROOT/coq"
 coq_makefile -f _CoqProject -o Makefile >/dev/null
 timeout 5400 make -j16 2>&1 | grep -v 'Cannot open' | tail -5
-cd /verif/ocaml && ./build.sh
-test -x /verif/ocaml/driver.exe && echo setup-ok
+cd "$ROOT/ocaml" && ./build.sh
+test -x "$ROOT/ocaml/driver.exe" && echo setup-ok
